@@ -44,13 +44,23 @@ static int g_temp_count = 0;
 static bool g_observe = false;
 struct Gen { std::vector<std::pair<uint64_t, uint64_t> > entries; };
 static std::vector<Gen> *g_gens = NULL;
+static int g_first_data_fd = -1;                // the Sort's data_ temp while BlockSorter's output is being spilled
+static std::vector<uint64_t> *g_spill = NULL;   // sizes of the write() calls of WriteAndRecycle to it
+// all data temps: sizes of the write() calls, one list per "generation" (creation or truncation to 0)
+static int g_dgen_of_fd[kMaxFd];
+static std::vector<std::vector<uint64_t> > *g_dgens = NULL;
 
 static void ObserveReset() {
   pthread_mutex_lock(&g_mu);
-  for (int i = 0; i < kMaxFd; ++i) { g_role[i] = 0; g_gen_of_fd[i] = -1; }
+  for (int i = 0; i < kMaxFd; ++i) { g_role[i] = 0; g_gen_of_fd[i] = -1; g_dgen_of_fd[i] = -1; }
+  if (!g_dgens) g_dgens = new std::vector<std::vector<uint64_t> >();
+  g_dgens->clear();
   g_temp_count = 0;
   if (!g_gens) g_gens = new std::vector<Gen>();
   g_gens->clear();
+  if (!g_spill) g_spill = new std::vector<uint64_t>();
+  g_spill->clear();
+  g_first_data_fd = -1;
   g_ftruncs = 0;
   g_observe = true;
   pthread_mutex_unlock(&g_mu);
@@ -63,7 +73,9 @@ static int TempCommon(const char *sym, char *tmpl) {
   pthread_mutex_lock(&g_mu);
   if (g_observe && fd >= 0 && fd < kMaxFd) {
     g_role[fd] = (g_temp_count % 2 == 0) ? 1 : 2;
+    if (g_temp_count == 0) g_first_data_fd = fd;
     g_gen_of_fd[fd] = -1;
+    g_dgen_of_fd[fd] = -1;
     ++g_temp_count;
   }
   pthread_mutex_unlock(&g_mu);
@@ -75,6 +87,8 @@ static int TruncCommon(int fd, off_t len) {
   __sync_fetch_and_add(&g_ftruncs, 1);
   pthread_mutex_lock(&g_mu);
   if (g_observe && fd >= 0 && fd < kMaxFd && g_role[fd] == 2 && len == 0) g_gen_of_fd[fd] = -1;
+  if (g_observe && fd == g_first_data_fd) g_first_data_fd = -1;   // reused as a pass output from now on
+  if (g_observe && fd >= 0 && fd < kMaxFd && g_role[fd] == 1 && len == 0) g_dgen_of_fd[fd] = -1;
   pthread_mutex_unlock(&g_mu);
   return (int)syscall(SYS_ftruncate, fd, len);
 }
@@ -87,6 +101,17 @@ extern "C" ssize_t write(int fd, const void *buf, size_t count) {
     uint64_t e[2];
     memcpy(e, buf, 16);
     (*g_gens)[g_gen_of_fd[fd]].entries.push_back(std::make_pair(e[0], e[1]));
+    pthread_mutex_unlock(&g_mu);
+  }
+  if (g_observe && fd >= 0 && fd < kMaxFd && g_role[fd] == 1) {
+    pthread_mutex_lock(&g_mu);
+    if (g_dgen_of_fd[fd] < 0) { g_dgens->push_back(std::vector<uint64_t>()); g_dgen_of_fd[fd] = (int)g_dgens->size() - 1; }
+    (*g_dgens)[g_dgen_of_fd[fd]].push_back(count);
+    pthread_mutex_unlock(&g_mu);
+  }
+  if (g_observe && fd >= 0 && fd == g_first_data_fd) {
+    pthread_mutex_lock(&g_mu);
+    g_spill->push_back(count);
     pthread_mutex_unlock(&g_mu);
   }
   return (ssize_t)syscall(SYS_write, fd, buf, count);
@@ -167,6 +192,30 @@ static inline uint64_t Fnv(uint64_t h, const uint8_t *p, std::size_t n) {
   return h;
 }
 
+static std::string g_oblocks;
+// Read the sorted output block by block (a Link, not a Stream) to observe the chain block boundaries.
+static void Drain(Chain &chain, std::vector<uint8_t> &out) {
+  std::vector<uint64_t> sizes;
+  {
+    Link l;
+    chain >> l >> kRecycle;
+    for (; l; ++l) {
+      sizes.push_back(l->ValidSize());
+      const uint8_t *p = static_cast<const uint8_t*>(l->Get());
+      out.insert(out.end(), p, p + l->ValidSize());
+    }
+  }
+  std::ostringstream o;
+  for (std::size_t i = 0; i < sizes.size();) {
+    std::size_t j = i;
+    while (j < sizes.size() && sizes[j] == sizes[i]) ++j;
+    if (i) o << ",";
+    o << sizes[i] << "*" << (j - i);
+    i = j;
+  }
+  g_oblocks = sizes.empty() ? "none" : o.str();
+}
+
 template <class Compare, class Combine> static void RunSort(const Case &c, const Compare &compare, const Combine &combine,
     const std::vector<uint8_t> &data, const std::vector<uint64_t> &counts, std::vector<uint8_t> &out,
     std::string &mret, std::string &lazy_used) {
@@ -179,9 +228,7 @@ template <class Compare, class Combine> static void RunSort(const Case &c, const
     Chain chain(cc);
     chain >> Putter(&data, &counts, c.rs);
     BlockingSort<Compare, Combine>(chain, sc, compare, combine);
-    Stream sorted;
-    chain >> sorted >> kRecycle;
-    for (; sorted; ++sorted) out.insert(out.end(), static_cast<const uint8_t*>(sorted.Get()), static_cast<const uint8_t*>(sorted.Get()) + c.rs);
+    Drain(chain, out);
     mret = "-";
     lazy_used = "-";
   } else if (c.mode == "steal") {
@@ -190,10 +237,11 @@ template <class Compare, class Combine> static void RunSort(const Case &c, const
     chain >> Putter(&data, &counts, c.rs);
     Sort<Compare, Combine> sorter(chain, sc, compare, combine);
     chain.Wait(true);
+    // as lmplz does (lm/builder/pipeline.cc:93-98): read the stolen file through a chain with PRead
     util::scoped_fd fd(sorter.StealCompleted());
-    uint64_t size = util::SizeOrThrow(fd.get());
-    out.resize(size);
-    if (size) util::ErsatzPRead(fd.get(), &out[0], size, 0);
+    Chain outc(ChainConfig(c.rs, c.cbc == 1 ? 2 : c.cbc, std::max<uint64_t>(c.cmem, c.rs * (c.cbc == 1 ? 2 : c.cbc))));
+    outc >> PRead(fd.release(), true);
+    Drain(outc, out);
     mret = "0";
     lazy_used = "0";
   } else {
@@ -209,9 +257,7 @@ template <class Compare, class Combine> static void RunSort(const Case &c, const
     // output chain: same entry size, its own block configuration
     Chain outc(ChainConfig(c.rs, c.cbc == 1 ? 2 : c.cbc, std::max<uint64_t>(c.cmem, c.rs * (c.cbc == 1 ? 2 : c.cbc))));
     sorter.Output(outc, lazy);
-    Stream sorted;
-    outc >> sorted >> kRecycle;
-    for (; sorted; ++sorted) out.insert(out.end(), static_cast<const uint8_t*>(sorted.Get()), static_cast<const uint8_t*>(sorted.Get()) + c.rs);
+    Drain(outc, out);
   }
 }
 
@@ -265,7 +311,22 @@ template <class Compare, class Combine> static void RunAndReport(const Case &c, 
   pthread_mutex_unlock(&g_mu);
   std::cout << "M n_out=" << n_out << " keyhash=" << kh << " mset=" << ms << " seq=" << sq
             << " passes=" << passes << " mret=" << mret << " lazy=" << lazy_used
-            << " logs=" << ngen << ":" << lh << " logshow=" << lshow.str() << std::endl;
+            << " logs=" << ngen << ":" << lh;
+  {
+    uint64_t sh = kFnvOff;
+    for (std::size_t i = 0; i < g_spill->size(); ++i) { uint64_t v = (*g_spill)[i]; sh = Fnv(sh, reinterpret_cast<const uint8_t*>(&v), 8); }
+    std::cout << " spill=" << g_spill->size() << ":" << sh;
+    // every data file ever written (spill + one per pass): the sizes of all write() calls
+    uint64_t dh = kFnvOff;
+    for (std::size_t g = 0; g < g_dgens->size(); ++g) {
+      for (std::size_t i = 0; i < (*g_dgens)[g].size(); ++i) { uint64_t v = (*g_dgens)[g][i]; dh = Fnv(dh, reinterpret_cast<const uint8_t*>(&v), 8); }
+      uint8_t sep = 0xAA;
+      dh = Fnv(dh, &sep, 1);
+    }
+    std::cout << " dwrites=" << g_dgens->size() << ":" << dh;
+  }
+  // invariant of the output blocks, checked here directly: every ValidSize is a multiple of the entry size
+  std::cout << " oblocks=" << g_oblocks << " logshow=" << lshow.str() << std::endl;
   // ---- O line: the property, computed directly
   bool sorted_ok = true;
   for (uint64_t i = 1; i < n_out; ++i) if (compare(&out[i * rs], &out[(i - 1) * rs])) { sorted_ok = false; break; }
@@ -365,6 +426,39 @@ static void RunOffsets(const std::string &arg) {
   std::cout << "remaining=" << remaining << " sizes=" << sizes.str() << " offsets=" << offs.str() << " total=" << o.TotalOffset() << std::endl;
 }
 
+static std::vector<uint8_t> FromHex(const std::string &h) {
+  std::vector<uint8_t> v;
+  for (std::size_t i = 0; i + 1 < h.size(); i += 2) v.push_back((uint8_t)strtoul(h.substr(i, 2).c_str(), NULL, 16));
+  return v;
+}
+static std::string ToHex(const std::vector<uint8_t> &v) {
+  static const char *d = "0123456789abcdef";
+  std::string o;
+  for (std::size_t i = 0; i < v.size(); ++i) { o.push_back(d[v[i] >> 4]); o.push_back(d[v[i] & 15]); }
+  return o;
+}
+// sizedswap <size> <hex buffer> <i> <j> : the real util::swap(SizedProxy, SizedProxy) on records i and j
+static void RunSizedSwap(std::istringstream &in) {
+  std::size_t size, i, j; std::string hex;
+  in >> size >> hex >> i >> j;
+  std::vector<uint8_t> buf = FromHex(hex);
+  if (!in || !size || (i + 1) * size > buf.size() || (j + 1) * size > buf.size()) { std::cout << "bad-op" << std::endl; return; }
+  util::FreePool pool(size);
+  util::swap(util::SizedProxy(&buf[i * size], pool), util::SizedProxy(&buf[j * size], pool));
+  std::cout << ToHex(buf) << std::endl;
+}
+// sizedsort <size> <hex buffer> : the real SizedSort with memcmp order on whole records
+static void RunSizedSort(std::istringstream &in) {
+  std::size_t size; std::string hex;
+  in >> size >> hex;
+  if (hex == "-") hex = "";
+  std::vector<uint8_t> buf = FromHex(hex);
+  if (!in || !size || buf.size() % size) { std::cout << "bad-op" << std::endl; return; }
+  uint8_t *b = buf.empty() ? NULL : &buf[0];
+  if (b) util::SizedSort(b, b + buf.size(), size, BytesLess(size));
+  std::cout << (buf.empty() ? "-" : ToHex(buf)) << std::endl;
+}
+
 int main() {
   std::string line;
   while (std::getline(std::cin, line)) {
@@ -373,6 +467,8 @@ int main() {
     in >> op;
     if (op == "case") RunCase(in);
     else if (op == "offsets") { std::string a; in >> a; RunOffsets(a); }
+    else if (op == "sizedswap") RunSizedSwap(in);
+    else if (op == "sizedsort") RunSizedSort(in);
     else std::cout << "bad-op" << std::endl;
   }
   return 0;
